@@ -100,19 +100,23 @@ def coq_sources():
     return out
 
 
-def regenerate():
-    """Run the translator; returns (ok, message).  Generated.v is only rewritten if changed."""
+def regenerate(prop=None):
+    """Run the translator; returns (ok, message).  Generated.v is only rewritten if changed.
+    A failing item only breaks the tie of the property that owns it (items/cXX.py -> CXX; the flag constants in
+    translate.py -> C16); properties that merely use its definitions see a proof/compile failure instead."""
     from vh import translate
-    try:
-        text = translate.generate(REPO)
-    except translate.TranslateError as e:
-        return False, 'translator:%s' % e
+    failures = []
+    text = translate.generate(REPO, failures)
     os.makedirs(os.path.join(COQ, 'Gen'), exist_ok=True)
     path = os.path.join(COQ, 'Gen', 'Generated.v')
     old = open(path).read() if os.path.exists(path) else None
     if old != text:
         with open(path, 'w') as f:
             f.write(text)
+    mine = [m for (owner, m) in failures
+            if prop is None or owner == prop.lower() or (owner == 'translate' and prop.upper() == 'C16')]
+    if mine:
+        return False, 'translator:' + '; '.join(mine)
     return True, ''
 
 
@@ -510,17 +514,19 @@ def run_check(prop, tier, seed, replay=None):
     ctx.assumptions = list(getattr(mod, 'ASSUMPTIONS', []))
     broken = []   # broken obligations (name, message)
     with BuildLock():
-        ok, msg = regenerate()
+        ok, msg = regenerate(prop)
         if not ok:
             broken.append((msg, msg))
-        pr = proof_step(prop, tier) if ok else {'ok': False, 'failed': msg, 'message': msg, 'obligations': 0}
+        pr = proof_step(prop, tier)
         ctx.proof = pr
         if ok and not pr['ok']:
             broken.append(('proof:%s' % pr['failed'], pr['message']))
-        mok, mmsg = build_model() if ok else (False, 'no Generated.v')
-        ctx.model_ok = mok
-        if not mok and ok:
+        mok, mmsg = build_model()
+        if not mok:
             broken.append(('model-build', mmsg))
+            # fall back to the last driver built from a good tree for the failing-input search
+            mok = os.path.exists(os.path.join(EXTRACT_DIR, 'driver'))
+        ctx.model_ok = mok
     if broken:
         ctx.searching = True
         log('BROKEN OBLIGATION(S): ' + '; '.join(b[0] for b in broken))
